@@ -349,19 +349,37 @@ package collection
 
 //@ func (rw *RollingWindow) Add
 //@   property C16
-//@   trusted
 //@   flag modifies_typeargs
 //@   requires rwOK(rw)
-//@   ensures rwOK(rw)
-//@   ensures rwAdded[rw] == upd(old(rwAdded[rw]), v, old(rwAdded[rw][v]) + 1)
-//@   modifies rwAdded[rw], rw.offset, rw.lastTime
+//@   ghost at after updateOffset#0: lemma modWrap(rw.offset, rw.size)
+//@   ghost at after updateOffset#0: rwBagAt[rw][rwE[rw]][v] = rwBagAt[rw][rwE[rw]][v] + 1
+//@   ghost at after updateOffset#0: rwAdded[rw][v] = rwAdded[rw][v] + 1
+//@   ensures  rwOK(rw)
+//@   ensures  rwAdded[rw] == upd(old(rwAdded[rw]), v, old(rwAdded[rw][v]) + 1)
+//@   ensures  implies(old(rwInv(rw)), rwInv(rw) && now < rw.lastTime + rw.interval)
+//@   ensures  rwE[rw] == old(rwE[rw]) + old(elapsed(rw))
+//@   ensures  rwBagAt[rw] == upd(old(rwBagAt[rw]), rwE[rw], upd(old(rwBagAt[rw])[rwE[rw]], v, old(rwBagAt[rw])[rwE[rw]][v] + 1))
+//@   modifies rwAdded[rw], rw.offset, rw.lastTime, rwE[rw], rwBagAt[rw], bkBag
 
+// Reduce: the idx-th bucket handed to fn holds epoch (epoch of now) - size + 1 + idx, for idx = 0 .. rwCount-1; the epochs
+// after the current bucket's are empty (rwInv), so these are exactly the values of the last `size` intervals, the running
+// one left out when ignoreCurrent is set and nothing newer exists.
+//@ specfn ringAt(x int, n int) int = x % n
+//@ lemma ringAll(b int, n int)
+//@   property C16
+//@   hyp n >= 1 && 0 <= b && b < n
+//@   goal forall(d.(int), implies(0 <= d && d < n, ringAt(b + d, n) == wrap(b + d, n)))
 //@ func (rw *RollingWindow) Reduce
 //@   property C16
-//@   trusted
-//@   requires rwOK(rw)
-//@   iterates fn count rwCount(rw) arg rw.win.buckets[(rwStart(rw)+idx)%rw.size]
-//@   modifies nothing
+//@   requires rwOK(rw) && fn != nil
+//@   flag callbacks_noheap
+//@   iterates fn count rwCount(rw) arg rw.win.buckets[ringAt(rwStart(rw)+idx, rw.size)]
+//@   ghost at entry: lemma modWrap(rw.offset + rwSpan(rw) + 1, rw.size)
+//@   ghost at entry: lemma ringAll(rwStart(rw), rw.size)
+//@   ensures  implies(old(rwInv(rw)), forall(idx.(int), implies(0 <= idx && idx < rwCount(rw),
+//@              bkBag[rw.win.buckets[ringAt(rwStart(rw)+idx, rw.size)]] == rwBagAt[rw][rwE[rw] + rwSpan(rw) - rw.size + 1 + idx])))
+//@   ensures  implies(old(rwInv(rw)), forall(e.(int), forall(x.(float64), implies(e > rwE[rw], rwBagAt[rw][e][x] == 0))))
+//@   modifies calls(fn)
 
 // ---------------------------------------------------------------------------------------------
 // C16 RollingWindow bodies. bkBag[b] = bag of the values bucket b received since its last Reset (ghost history of the
@@ -369,13 +387,13 @@ package collection
 // ---------------------------------------------------------------------------------------------
 //@ ghost var bkBag map[any]map[float64]int
 
-//@ func (b BucketInterface) Add
+//@ extern func (b BucketInterface) Add
 //@   property C16
 //@   ensures  bkBag[b] == upd(old(bkBag[b]), v, old(bkBag[b][v]) + 1)
 //@   modifies bkBag[b]
 //@   flag modifies_typeargs
 
-//@ func (b BucketInterface) Reset
+//@ extern func (b BucketInterface) Reset
 //@   property C16
 //@   ensures  forall(x.(float64), bkBag[b][x] == 0)
 //@   modifies bkBag[b]
@@ -440,18 +458,59 @@ package collection
 
 //@ func (rw *RollingWindow) updateOffset
 //@   property C16
-//@   requires rwInv(rw)
+//@   requires rwOK(rw)
 //@   flag modifies_typeargs
 //@   ghost at entry: lemma remRange(now - rw.lastTime, rw.interval)
 //@   ghost at entry: rwE[rw] = rwE[rw] + elapsed(rw)
 //@   ghost at begin loop 0: lemma modWrap(offset + i + 1, rw.size)
 //@   ghost at before Now#0: lemma modWrap(offset + span, rw.size)
-//@   ensures  rwInv(rw)
-//@   ensures  rw.lastTime <= now && now < rw.lastTime + rw.interval
+//@   ensures  rwOK(rw)
+//@   ensures  implies(old(rwInv(rw)), rwInv(rw) && now < rw.lastTime + rw.interval)
 //@   ensures  rwE[rw] == old(rwE[rw]) + old(elapsed(rw))
 //@   modifies rw.offset, rw.lastTime, rwE[rw], bkBag
 //@   loop 0: modifies bkBag
 //@   loop 0: invariant 0 <= i && i <= span && rw.offset == offset
-//@   loop 0: invariant forall(j.(int), forall(x.(float64), implies(0 <= j && j < rw.size,
-//@              bkBag[rw.win.buckets[j]][x] == ite(inReset(j, offset, i, rw.size), 0, old(bkBag[rw.win.buckets[j]][x])))))
+//@   loop 0: invariant implies(old(rwInv(rw)), forall(j.(int), forall(x.(float64), implies(0 <= j && j < rw.size,
+//@              bkBag[rw.win.buckets[j]][x] == ite(inReset(j, offset, i, rw.size), 0, old(bkBag[rw.win.buckets[j]][x]))))))
 //@   loop 0: invariant forall(b.(any), implies(forall(j.(int), implies(0 <= j && j < rw.size, rw.win.buckets[j] != b)), bkBag[b] == old(bkBag[b])))
+
+// ---- construction: newBucket is assumed to build a new bucket on every call (its history starts empty) ----
+//@ func newWindow
+//@   property C16
+//@   requires size >= 1 && newBucket != nil
+//@   flag freshfn:newBucket
+//@   flag noheap:newBucket
+//@   ghost at after newBucket#0: bkBag[ret] = zeros(bkBag[ret])
+//@   ensures  fresh(result) && winOK(result) && result.size == size
+//@   ensures  forall(i.(int), forall(j.(int), implies(0 <= i && i < j && j < size, result.buckets[i] != result.buckets[j])))
+//@   ensures  forall(i.(int), forall(x.(float64), implies(0 <= i && i < size, bkBag[result.buckets[i]][x] == 0)))
+//@   modifies bkBag, calls(newBucket)
+//@   allocates
+//@   loop 0: modifies elems(buckets), bkBag, calls(newBucket)
+//@   loop 0: invariant 0 <= i && i <= size && len(buckets) == size
+//@   loop 0: invariant forall(a.(int), implies(0 <= a && a < i, buckets[a] != nil && fresh(buckets[a])))
+//@   loop 0: invariant forall(a.(int), forall(b.(int), implies(0 <= a && a < b && b < i, buckets[a] != buckets[b])))
+//@   loop 0: invariant forall(a.(int), forall(x.(float64), implies(0 <= a && a < i, bkBag[buckets[a]][x] == 0)))
+
+//@ func NewRollingWindow
+//@   property C16
+//@   requires size >= 1 && interval > 0 && newBucket != nil
+//@   call opt#0: modifies w.ignoreCurrent
+//@   ghost at returned#0: rwE[ret] = 0
+//@   ghost at returned#0: rwBagAt[ret] = zeros(rwBagAt[ret])
+//@   ensures  fresh(result) && rwInv(result) && result.size == size && result.interval == interval && result.lastTime == now
+//@   modifies bkBag, calls, rwE[result], rwBagAt[result]
+//@   allocates
+//@   loop 0: modifies w.ignoreCurrent
+//@   loop 0: invariant true
+
+//@ func (b *Bucket) Add
+//@   property C16
+//@   requires b != nil
+//@   ensures  b.Sum == old(b.Sum) + v && b.Count == old(b.Count) + 1
+//@   modifies b.Sum, b.Count
+//@ func (b *Bucket) Reset
+//@   property C16
+//@   requires b != nil
+//@   ensures  b.Sum == 0 && b.Count == 0
+//@   modifies b.Sum, b.Count
